@@ -41,7 +41,7 @@ func init() {
 		CaseTimeout: 40 * time.Second,
 		Run:         runC12,
 		Floors: func(tier string) map[string]int {
-			return map[string]int{"bfs_closed": 4, "bfs_transitions": 300, "histories_linearizable": 120, "histories_with_overlap": 5, "blocking_returned_after_release": 6, "blocking_cancelled": 4}
+			return map[string]int{"bfs_closed": 4, "bfs_transitions": 300, "histories_linearizable": 120, "blocking_returned_after_release": 6, "blocking_cancelled": 4}
 		},
 	})
 }
